@@ -3,6 +3,7 @@
 import json, os, subprocess
 
 VERIF = os.path.dirname(os.path.dirname(os.path.abspath(__file__)))
+FUZZ_PROPS = ("C01", "C02", "C03", "C04", "C05", "C06", "C07", "C08", "C09", "C13", "C17")
 
 # id: (implemented, level, technique, level text, note, design ref)
 T = {
@@ -73,6 +74,8 @@ def main():
     na = []
     for pid in sorted(T):
         impl, level, tech, text, note = T[pid]
+        if pid in FUZZ_PROPS:
+            tech += " + coverage-guided fuzzing (libFuzzer target fz_ops mutating the choice string of the same generator, same oracle)"
         if not impl:
             na.append(dict(property_id=pid, reason="check not built yet in this revision (planned, see DESIGN.md section 5); the technique applies"))
             continue
@@ -87,7 +90,7 @@ def main():
                           enable="no hooks: the checks compile /repo/m4ri/*.c directly per build configuration (bin/vbuild.py); nothing in /repo is guarded and there are no hook commits",
                           baseline_off_cmd="cd /repo && make check", source_commits=[], add_only=True),
                engines=[dict(name="vf", path="src/", serves_properties=[c["property_id"] for c in checks],
-                             kind_free_text="rapidcheck property harness (C++) with a reference GF(2) model; linked against /repo/m4ri/*.c compiled per build configuration with ASan/UBSan (or TSan); sharded and driven by bin/vcheck.py; libFuzzer targets for file input")],
+                             kind_free_text="rapidcheck property harness (C++) with a reference GF(2) model; linked against /repo/m4ri/*.c compiled per build configuration with ASan/UBSan (or TSan); sharded and driven by bin/vcheck.py; libFuzzer targets: fz_io (file readers on arbitrary bytes) and fz_ops (the catalogue generators driven by a fuzzer-owned choice string)")],
                checks=checks, not_applicable=na,
                notes="fix: commits in /repo are listed in KNOWN_FINDINGS.txt; every check replays replays/known/* first")
     with open(os.path.join(VERIF, "MANIFEST.json"), "w") as f:
